@@ -156,6 +156,26 @@ fn judge_control(rep: &mut Report, bp: &BatchParams, c: &CtlRec) {
             );
             return;
         }
+        (Expect::Rejected(why), 0) => {
+            rep.count(&format!("p1/group-message-not-mapped-to-its-key-rejected/{}", why));
+            rep.count("p1/group-message-not-mapped-to-its-key-rejected");
+            return;
+        }
+        (Expect::Rejected(why), _) => {
+            rep.violation(
+                "session-binding",
+                &format!("C03/cross-session-accepted/group-message-for-group-not-mapped-to-its-key/{}", why),
+                format!(
+                    "a group message secured with the operational key of a key set that the receiver does not map to the addressed group ({}; header {:?}) was handed to an exchange ({}): it was accepted under the key of another group. datagram {}",
+                    why,
+                    c.hp,
+                    secure.iter().map(|e| e.brief()).collect::<Vec<_>>().join("; "),
+                    c.dgram_hex
+                ),
+                rj.clone(),
+            );
+            return;
+        }
         (Expect::Any(why), 0) => {
             rep.note(&format!("open-shape-not-delivered/{}", why));
             rep.count("p1/controls-open-shape");
@@ -446,6 +466,7 @@ pub fn run(ctx: &Ctx) -> Report {
         ("p1/len:65-255", 20),
         ("p1/len:256-1023", 20),
         ("p1/len:max-rx", 3),
+        ("p1/group-message-not-mapped-to-its-key-rejected", 40),
         ("p2/roundtrip-identical", 500_000),
         ("p2/mutant-rejected", 1_500_000),
         ("p2/len:max-rx", 1_000),
